@@ -47,6 +47,9 @@ CHECKS = {
  "C05": ("model_checking", "E1 in isolated workers", "exhaustive enumeration of byte strings / mutations / hostile headers / bombs over every reading entry point and three allocation limits, executed on the real library in worker processes under a counting allocator with a parent-side progress watchdog",
          "Every input of the bounded universe is fed to every reading entry point under each allocation limit in its own process: no panic, no abort, no stall on a single input, and no single allocation request above three times the limit (64 KiB floor; bzip2 working memory excepted).",
          "5 C05", "allocations made by C libraries (xz, zstd) are not observed; recursion depth limited to 200; reader iteration cut at 10 000 items"),
+ "C19": ("model_checking", "E4 sched", "exhaustive depth-first exploration (shuttle check_dfs) of all interleavings of 2-3 threads' set/use operations on each process-wide setting, over a scheduling shim inserted under the settings' cells by build-time instrumentation; plus per-limit child processes for uniform enforcement",
+         "For each of the seven process-wide settings and each small thread program every interleaving of the cell operations is executed on the real setters/users: all callers and a later read observe one value and it is the value of some thread's first operation; fourteen limit values from 0 to usize::MAX are each installed in a fresh process and every decoder path accepts declared lengths up to the limit and rejects the next one.",
+         "5 C19", "std OnceLock methods are linearizable; sequentially consistent scheduling only; instrumentation covers cells that are std::sync::OnceLock"),
 }
 def main():
     checks = []
